@@ -94,10 +94,13 @@ func c06Check(ps *protoServer, tn string, eio string, sessionNo int, interval, t
 	}
 }
 
-func VerifH_C06_handshake() {
+func VerifH_C06_handshake() { verif.RunTimed(c06Handshake) }
+
+// (under virtual time: natively the heartbeat timers of tiny intervals must not fire while the harness looks)
+func c06Handshake() {
 	opts := config.DefaultServerOptions()
 	interval, timeout := time.Duration(verif.Int64()), time.Duration(verif.Int64())
-	verif.Assume(interval >= 0 && timeout >= 0 && interval < 1<<50 && timeout < 1<<50)
+	verif.Assume(interval >= 1 && timeout >= 1 && interval < 1<<50 && timeout < 1<<50)
 	maxPayload := verif.Int64()
 	opts.SetPingInterval(interval)
 	opts.SetPingTimeout(timeout)
